@@ -10,6 +10,7 @@ from dalimc.core.explorer import explore
 from dalimc.spec import memory_layout as M
 from dalimc.env import gear102 as G, device103 as D, memimage as MI
 from .c11 import lib_values
+from . import _partner as P
 
 ID = "C09"
 OPTIMISED_STRIDE = {"quick": 10, "thorough": 20}      # every k-th shard once more in an interpreter started with -O
@@ -317,6 +318,7 @@ def shards(tier):
                 out.append(("all", bname, fam, latch, tier))
     for a0 in range(0, 64, 16):
         out.append(("addr_sweep", a0, a0 + 16))
+    out += P.partner_shards(PARTNERS)
     return out
 
 
@@ -350,7 +352,28 @@ def run_addr_sweep(res, lo, hi):
     sample(res, {"address_sweep": [lo, hi - 1], "families": ["gear", "device"], "address_spellings": ["address object", "int (gear)", "subclass instance"]})
 
 
+def _partner_read_all():
+    import importlib
+    bank = getattr(importlib.import_module("dali.memory." + M.BANKS["BANK_202"][0]), "BANK_202")
+    h = MemHarness("gear", "BANK_202", "rnd2", None, [], None, ticks=False, faults=False, sa=9)
+    return bank.read_all(h.addr(), use_latch=True), h, lambda: list(h.bank.cells)
+
+
+def _partner_read():
+    cls = lib_values()[("BANK_0", "GTIN")]
+    h = MemHarness("device", "BANK_0", "rnd1", None, [], None, ticks=False, faults=False, sa=11)
+    return cls.read(h.addr()), h, lambda: list(h.bank.cells)
+
+
+PARTNERS = [("BANK_202.read_all(latched)", _partner_read_all), ("BANK_0 GTIN.read (device)", _partner_read)]
+PARTNERED = [("single", "BANK_0", "GTIN", "quick"), ("single", "BANK_1", "LuminaireID", "quick"), ("all", "BANK_202", "gear", True, "quick"),
+             ("all", "BANK_0", "device", False, "quick"), ("all", "BANK_1", "gear", True, "quick")]
+
+
 def run_shard(shard):
+    if shard[0] == "partnered":
+        import sys
+        return P.run_partnered(sys.modules[__name__], shard, PARTNERS, PARTNERED)
     res = new_result()
     k = shard[0]
     if k == "addr_sweep":
